@@ -674,3 +674,103 @@ Proof.
     assert (h_rc (decode s) < 16384) by (apply N.mod_lt; discriminate).
     set (r := h_rc (decode s)) in *. unfold max_rc in *. repeat split; lia.
 Qed.
+
+(** ** Field-level corollaries (property C16: the counters saturate, never wrap, never spill) *)
+Lemma gen_max_val : G.MAX = 16382 /\ G.COUNTER_MASK = 16383.
+Proof. exact gen_max_spec. Qed.
+
+Lemma h_rc_lt s : h_rc (decode s) < 16384.
+Proof. apply N.mod_lt; discriminate. Qed.
+Lemma h_tc_lt s : h_tc (decode s) < 16384.
+Proof. apply N.mod_lt; discriminate. Qed.
+
+Theorem inc_rc_saturates s : wf s -> h_rc (decode s) = max_rc ->
+  G.increment_counter s = (s, true).
+Proof.
+  intros Hwf E. assert (Hres : h_rc (decode s) <> 16383) by (rewrite E; discriminate).
+  pose proof (gen_inc_rc_spec s Hwf Hres) as H. unfold inc_rc in H.
+  rewrite E, N.eqb_refl in H. exact H.
+Qed.
+
+Theorem inc_rc_increments s : wf s -> h_rc (decode s) < max_rc ->
+  let s' := fst (G.increment_counter s) in
+  snd (G.increment_counter s) = false /\
+  h_rc (decode s') = h_rc (decode s) + 1 /\ h_tc (decode s') = h_tc (decode s) /\
+  h_mark (decode s') = h_mark (decode s) /\ h_fin (decode s') = h_fin (decode s) /\
+  h_side (decode s') = h_side (decode s) /\ wf s'.
+Proof.
+  intros Hwf Hlt. unfold max_rc in Hlt.
+  assert (Hres : h_rc (decode s) <> 16383) by lia.
+  pose proof (gen_inc_rc_spec s Hwf Hres) as H. unfold inc_rc in H.
+  replace (h_rc (decode s) =? max_rc) with false in H
+    by (symmetry; apply N.eqb_neq; unfold max_rc; lia).
+  destruct H as (H1 & H2 & H3 & H4). cbv zeta. rewrite H2.
+  cbn [set_rc h_rc h_tc h_mark h_fin h_side]. repeat split; assumption.
+Qed.
+
+Theorem inc_rc_no_wrap s : wf s -> h_rc (decode s) <> 16383 ->
+  let s' := fst (G.increment_counter s) in
+  h_rc (decode s) <= h_rc (decode s') /\ h_rc (decode s') <= max_rc /\ h_rc (decode s') <> 16383.
+Proof.
+  intros Hwf Hres. cbv zeta. pose proof (h_rc_lt s) as Hlt.
+  destruct (N.eq_dec (h_rc (decode s)) max_rc) as [E|E].
+  - rewrite (inc_rc_saturates s Hwf E). cbn [fst]. rewrite E. unfold max_rc. lia.
+  - assert (Hlt' : h_rc (decode s) < max_rc) by (unfold max_rc in *; lia).
+    destruct (inc_rc_increments s Hwf Hlt') as (_ & H & _). cbv zeta in H. rewrite H.
+    unfold max_rc in *. lia.
+Qed.
+
+Theorem dec_rc_zero s : wf s -> h_rc (decode s) = 0 -> G.decrement_counter s = (s, true).
+Proof.
+  intros Hwf E. pose proof (gen_dec_rc_spec s Hwf) as H. unfold dec_rc in H.
+  rewrite E in H. exact H.
+Qed.
+
+Theorem dec_rc_decrements s : wf s -> 0 < h_rc (decode s) ->
+  let s' := fst (G.decrement_counter s) in
+  snd (G.decrement_counter s) = false /\
+  h_rc (decode s') = h_rc (decode s) - 1 /\ h_tc (decode s') = h_tc (decode s) /\
+  h_mark (decode s') = h_mark (decode s) /\ h_fin (decode s') = h_fin (decode s) /\
+  h_side (decode s') = h_side (decode s) /\ wf s'.
+Proof.
+  intros Hwf Hpos. pose proof (gen_dec_rc_spec s Hwf) as H. unfold dec_rc in H.
+  replace (h_rc (decode s) =? 0) with false in H by (symmetry; apply N.eqb_neq; lia).
+  destruct H as (H1 & H2 & H3 & H4). cbv zeta. rewrite H2.
+  cbn [set_rc h_rc h_tc h_mark h_fin h_side]. repeat split; assumption.
+Qed.
+
+Theorem inc_tc_saturates s : wf s -> h_tc (decode s) = max_rc ->
+  G.increment_tracing_counter s = (s, true).
+Proof.
+  intros Hwf E. assert (Hres : h_tc (decode s) <> 16383) by (rewrite E; discriminate).
+  pose proof (gen_inc_tc_spec s Hwf Hres) as H. unfold inc_tc in H.
+  rewrite E, N.eqb_refl in H. exact H.
+Qed.
+
+Theorem inc_tc_increments s : wf s -> h_tc (decode s) < max_rc ->
+  let s' := fst (G.increment_tracing_counter s) in
+  snd (G.increment_tracing_counter s) = false /\
+  h_tc (decode s') = h_tc (decode s) + 1 /\ h_rc (decode s') = h_rc (decode s) /\
+  h_mark (decode s') = h_mark (decode s) /\ h_fin (decode s') = h_fin (decode s) /\
+  h_side (decode s') = h_side (decode s) /\ wf s'.
+Proof.
+  intros Hwf Hlt. unfold max_rc in Hlt.
+  assert (Hres : h_tc (decode s) <> 16383) by lia.
+  pose proof (gen_inc_tc_spec s Hwf Hres) as H. unfold inc_tc in H.
+  replace (h_tc (decode s) =? max_rc) with false in H
+    by (symmetry; apply N.eqb_neq; unfold max_rc; lia).
+  destruct H as (H1 & H2 & H3 & H4). cbv zeta. rewrite H2.
+  cbn [set_tc h_rc h_tc h_mark h_fin h_side]. repeat split; assumption.
+Qed.
+
+Theorem inc_tc_no_wrap s : wf s -> h_tc (decode s) <> 16383 ->
+  let s' := fst (G.increment_tracing_counter s) in
+  h_tc (decode s) <= h_tc (decode s') /\ h_tc (decode s') <= max_rc /\ h_tc (decode s') <> 16383.
+Proof.
+  intros Hwf Hres. cbv zeta. pose proof (h_tc_lt s) as Hlt.
+  destruct (N.eq_dec (h_tc (decode s)) max_rc) as [E|E].
+  - rewrite (inc_tc_saturates s Hwf E). cbn [fst]. rewrite E. unfold max_rc. lia.
+  - assert (Hlt' : h_tc (decode s) < max_rc) by (unfold max_rc in *; lia).
+    destruct (inc_tc_increments s Hwf Hlt') as (_ & H & _). cbv zeta in H. rewrite H.
+    unfold max_rc in *. lia.
+Qed.
